@@ -257,11 +257,14 @@ Theorem C15_oracle_misses_justified : forall maxttl h rs a k b,
 Proof. exact main_oracle_misses_justified. Qed.
 Print Assumptions C15_oracle_misses_justified.
 
-(* The oracle also demands that Stop was observed to return and the cleaner to have exited. *)
+(* The oracle also demands that Stop was observed to return and the cleaner to have exited; in a
+   case of several overlapping Stop calls, that EVERY call returned and that the cleaner had
+   exited when it did. *)
 Theorem C15_oracle_stop : forall c,
   oracle c = true ->
   match c with
   | CSeq _ _ _ sr ce | CConc _ _ _ sr ce => sr = true /\ ce = true
+  | CStops calls => forall sr ce, In (sr, ce) calls -> sr = true /\ ce = true
   end.
 Proof. exact main_oracle_stop. Qed.
 Print Assumptions C15_oracle_stop.
